@@ -700,7 +700,7 @@ pub fn run_c07(report: &mut Report) {
     report.set("evaluations", evaluations);
     report.set("distinct_nontrivial", distinct.len() as u64);
     report.set("exhaustive", stuck_runtimes < 10);
-    report.set("rule", "on each real transport x close kind {clean: TLS close_notify / cli closes stdout / SSH channel EOF; eof: FIN without close_notify / cli exits / SSH channel close; abort: TCP reset / cli SIGKILLed / TCP drop}: the peer closes after a prefix of the hello (every offset in the thorough tier), while the established session is idle, after 0-2 requests were written and before any reply byte, after a prefix of the reply stream, between two replies; then one further request; every pending and subsequent operation must resolve within 2.5 s, without zero-length-read loops or CPU burn, Ok only for replies completely delivered before the close; distinct = (transport, kind, point)");
+    report.set("rule", "on each real transport x close kind {clean: TLS close_notify / cli closes stdout / SSH channel EOF; eof: FIN without close_notify / cli exits / SSH channel close; abort: TCP reset / cli SIGKILLed / TCP drop}: the peer closes after a prefix of the hello (every offset in the thorough tier), while the established session is idle, after 0-2 requests were written and before any reply byte, after a prefix of the reply stream, between two replies; then one further request; every pending and subsequent operation must resolve within the calibrated watchdog (>= 1.5 s, 40x establishment latency), without zero-length-read loops or CPU burn, Ok only for replies completely delivered before the close; distinct = (transport, kind, point)");
     report.assume("bounded time is judged with a real-time watchdog three orders of magnitude above the loopback latency");
 }
 
